@@ -133,16 +133,19 @@ def ob_once(run, oid):
         if not dup:
             o.fail("Pool::add_cert|add_valid_cert|duplicate-guard", "add_valid_cert is not guarded by the duplicate check", c.span, {"guards": G.atoms_show(atoms)})
             continue
-        l = dup[0][1][0][1]
         seen = {}
-        for d in b.defs().get(l, []):
-            dbb = d[1]
-            vs = [a for a in G.guard_atoms(b, dbb, prog) if a[0] == "variant"]
-            term = b.call_term(dbb, d[3]) if d[0] == "call" else b.rvalue_term(d[3]["rv"])
-            fs = G.field_names(G.deep_fields(prog, term, 0), "SlotCertificates")
-            for a in vs:
-                for v in a[1][1]:
-                    seen[v] = (fs, term, dbb)
+        for cand in dup:
+            l = cand[1][0][1]
+            for d in b.defs().get(l, []):
+                dbb = d[1]
+                vs = [a for a in G.guard_atoms(b, dbb, prog) if a[0] == "variant"]
+                term = b.call_term(dbb, d[3]) if d[0] == "call" else b.rvalue_term(d[3]["rv"])
+                fs = G.field_names(G.deep_fields(prog, term, 0), "SlotCertificates")
+                if not fs:
+                    continue
+                for a in vs:
+                    for v in a[1][1]:
+                        seen[v] = (fs, term, dbb)
         for v, f in want.items():
             got = seen.get(v)
             o.check(got is not None and f in got[0], "Pool::add_cert|duplicate|%s" % v, "Cert::%s is a duplicate iff certificates.%s already holds one" % (v, f), c.span,
